@@ -916,6 +916,8 @@ pub fn c15(tier: &str, seed: u64) -> i32 {
     // the highest occupied bucket is the last of its group of eight but not of its group of 64
     bucket_keys_closure(&mut ctx, "C15", 128, &[7, 23], vec![5], O_RO, 2, 2_000, 10.0);
     bucket_keys_closure(&mut ctx, "C15", 64, &[15, 39], vec![5], O_RO, 1, 2_000, 10.0);
+    // a traversal that is resumed in the middle of a group of eight buckets (after bucket 6) while the bitmap holds large numbers
+    bucket_keys_closure(&mut ctx, "C15", 16, &[6, 15], vec![5], O_RO, 2, 2_000, 10.0);
     {
         // a key longer than 64 KiB
         let a = Alpha { label: "1 key of 70000 bytes + 1 short key x {5}", colliding: vec![70_000], other: vec![5], vals: vec![5] };
